@@ -57,7 +57,8 @@ func c16RenderAddr(uri, tag string, st c16Style, side int) string {
 	u := uri
 	sip := c16IsSip(uri)
 	if sip && st.UriParams {
-		u += []string{";transport=tcp", ";user=phone;lr"}[side]
+		// (a transport parameter that would change the default port, on URIs with and without port)
+		u += []string{";transport=tcp", ";user=phone;lr", ";transport=tls", ";transport=TLS;maddr=10.0.0.1"}[(side+2*(len(tag)%2))%4]
 	}
 	if sip && st.UriHdrs {
 		u += []string{"?subject=x", "?a=b&c=d"}[side]
